@@ -17,7 +17,7 @@ import (
 )
 
 type Op struct {
-	Kind        string   `json:"kind"` // edit | build | gc
+	Kind        string   `json:"kind"` // edit | build | gc | load (a process that only loads the project: `dawn list`)
 	Edit        *Edit    `json:"edit,omitempty"`
 	Target      string   `json:"target,omitempty"`
 	Always      bool     `json:"always,omitempty"`
@@ -31,6 +31,9 @@ type Op struct {
 	PreferIndex bool     `json:"preferIndex,omitempty"`
 	// judge annotations
 	ExpectNoExec bool   `json:"expectNoExec,omitempty"` // C02: only no-op edits since the last successful build of Target
+	// C02: these targets last executed successfully against exactly the inputs they have now (the generator guarantees it
+	// when every earlier build of the history succeeded): their bodies must not run in this build
+	ExpectSkip []string `json:"expectSkip,omitempty"`
 	Note         string `json:"note,omitempty"`
 }
 
@@ -38,6 +41,9 @@ type History struct {
 	// Layout: "" = the project root is a plain directory; "rootlink" = the root is opened through a symbolic link;
 	// "dawnlink" = <root>/.dawn is a symbolic link to a directory elsewhere
 	Layout   string `json:"layout,omitempty"`
+	// JudgeOnly: the history contains operating-system faults the model has no notion of (a directory replaced by a
+	// file, a truncated index.json): it is judged on the implementation and not compared with the model
+	JudgeOnly bool `json:"judgeOnly,omitempty"`
 	Template string `json:"template"`
 	Proj     *Proj  `json:"proj"`
 	Ops      []Op   `json:"ops"`
@@ -587,9 +593,23 @@ func (r *runner) playIn(h *History, po playOpts, root string) *played {
 				}
 			case "delgen":
 				emit(fmt.Sprintf("file %d m", n.path(e.Path)), "ok")
+			case "junktemp":
+				emit(fmt.Sprintf("temps %d", e.Val), "ok")
+			case "blockdir", "unblockdir", "truncindex":
+				// operating-system faults: judge-only histories
 			default:
 				defsDirty = true
 			}
+		case "load":
+			flush()
+			var err error
+			o, err = r.runChild(childSpec{Root: root, Op: "load", PreferIndex: op.PreferIndex}, false)
+			if err != nil {
+				res.err = err
+				return res
+			}
+			scan(root, allGens(p), o)
+			emit(fmt.Sprintf("load %d", b2i(op.PreferIndex)), "ok "+c.world(o))
 		case "gc":
 			flush()
 			before := hashDir(root, filepath.Join(".dawn", "build"))
@@ -782,4 +802,24 @@ func (r *runner) fingerprints(root string) (map[string]string, error) {
 		}
 	}
 	return out, nil
+}
+
+// indexLoad loads a copy of the project (state included) preferring index.json, as `dawn gc` / `dawn list` do; returns the exit code
+func (r *runner) indexLoad(root string) (int, string, error) {
+	twin := r.tmp("idx")
+	defer os.RemoveAll(twin)
+	if err := copyTree(root, twin, false); err != nil {
+		return 0, "", err
+	}
+	o, err := r.runChild(childSpec{Root: twin, Op: "load", PreferIndex: true}, false)
+	if err != nil {
+		return 0, "", err
+	}
+	msg := o.Stderr
+	for _, l := range o.EventsRaw {
+		if strings.HasPrefix(l, "LE\t") {
+			msg += l
+		}
+	}
+	return o.Exit, msg, nil
 }
